@@ -1273,8 +1273,13 @@ class Intersection(Operation):
            global_state: pg.geno.AttributeDict,
            step: int = 0) -> List[Any]:
     id_count = {}
+    # NOTE: outputs are kept alive during the call: `id()` of a collected
+    # object may be reused by an item produced later.
+    alive = []
     for op in self._ops[1:]:
-      for dna in op(inputs, global_state=global_state, step=step):
+      outputs = op(inputs, global_state=global_state, step=step)
+      alive.append(outputs)
+      for dna in outputs:
         dna_id = id(dna)
         if dna_id not in id_count:
           id_count[dna_id] = 0
@@ -1323,8 +1328,13 @@ class Difference(Operation):
            global_state: pg.geno.AttributeDict,
            step: int = 0) -> List[Any]:
     excluded_ids = set()
+    # NOTE: outputs are kept alive during the call: `id()` of a collected
+    # object may be reused by an item produced later.
+    alive = []
     for op in self._ops[1:]:
-      for dna in op(inputs, global_state=global_state, step=step):
+      outputs = op(inputs, global_state=global_state, step=step)
+      alive.append(outputs)
+      for dna in outputs:
         excluded_ids.add(id(dna))
     results = []
     for dna in self._ops[0](inputs, global_state=global_state, step=step):
